@@ -310,12 +310,9 @@ theorem structWF_of_inv (n : CNetlist) (h : BodyInv n.libs n.top) : StructWF n :
     · rw [List.all_eq_true]
       intro i hi
       unfold InstRefOK
-      cases hr : i.ref with
-      | none => rfl
-      | some r =>
-        obtain ⟨d', hd'⟩ := ht.hrefs i hi r hr
-        obtain ⟨h1, h2⟩ := lookAt_defAt n.libs L D l hl r d' hd'
-        simp [h1, h2]
+      obtain ⟨r, hr, d', hd'⟩ := ht.hrefs i hi
+      obtain ⟨h1, h2⟩ := lookAt_defAt n.libs L D l hl r d' hd'
+      simp [hr, h1, h2]
     · rw [List.all_eq_true]
       intro c hc
       simp only [CableOKB, Bool.and_eq_true, Bool.not_eq_true', List.isEmpty_eq_false_iff, List.all_eq_true]
